@@ -978,14 +978,19 @@ impl MdkSqliteStorage {
             )
             .map_err(|e| Error::Database(e.to_string()))?;
 
-            conn.execute(
-                "DELETE FROM groups WHERE mls_group_id = ?",
-                [group_id_bytes],
-            )
-            .map_err(|e| Error::Database(e.to_string()))?;
-
-            // Note: The CASCADE will have deleted the snapshot rows, but we already
-            // have the data in memory (snapshot_rows).
+            // The groups row is restored in place (upsert below).  Deleting it would CASCADE to
+            // every table that references the group - including `messages`, which a rollback must
+            // not destroy.  Only a snapshot taken when no group row existed removes the row.
+            let snapshot_has_group_row = snapshot_rows
+                .iter()
+                .any(|(table_name, _, _)| table_name == "groups");
+            if !snapshot_has_group_row {
+                conn.execute(
+                    "DELETE FROM groups WHERE mls_group_id = ?",
+                    [group_id_bytes],
+                )
+                .map_err(|e| Error::Database(e.to_string()))?;
+            }
 
             // 3. Restore from in-memory snapshot data
             // IMPORTANT: We must restore "groups" first because group_relays and
@@ -1031,7 +1036,21 @@ impl MdkSqliteStorage {
                     "INSERT INTO groups (mls_group_id, nostr_group_id, name, description, admin_pubkeys,
                                         last_message_id, last_message_at, last_message_processed_at, epoch, state,
                                         image_hash, image_key, image_nonce, last_self_update_at)
-                     VALUES (?, ?, ?, ?, ?, ?, ?, ?, ?, ?, ?, ?, ?, ?)",
+                     VALUES (?, ?, ?, ?, ?, ?, ?, ?, ?, ?, ?, ?, ?, ?)
+                     ON CONFLICT(mls_group_id) DO UPDATE SET
+                        nostr_group_id = excluded.nostr_group_id,
+                        name = excluded.name,
+                        description = excluded.description,
+                        admin_pubkeys = excluded.admin_pubkeys,
+                        last_message_id = excluded.last_message_id,
+                        last_message_at = excluded.last_message_at,
+                        last_message_processed_at = excluded.last_message_processed_at,
+                        epoch = excluded.epoch,
+                        state = excluded.state,
+                        image_hash = excluded.image_hash,
+                        image_key = excluded.image_key,
+                        image_nonce = excluded.image_nonce,
+                        last_self_update_at = excluded.last_self_update_at",
                     rusqlite::params![
                         mls_group_id,
                         nostr_group_id,
@@ -1137,7 +1156,7 @@ impl MdkSqliteStorage {
             // This preserves multiple snapshots when rolling back to one of them.
             for (snap_name, table_name, row_key, row_data, created_at) in &other_snapshots {
                 conn.execute(
-                    "INSERT INTO group_state_snapshots (snapshot_name, group_id, table_name, row_key, row_data, created_at)
+                    "INSERT OR IGNORE INTO group_state_snapshots (snapshot_name, group_id, table_name, row_key, row_data, created_at)
                      VALUES (?, ?, ?, ?, ?, ?)",
                     rusqlite::params![snap_name, group_id_bytes, table_name, row_key, row_data, created_at],
                 )
